@@ -55,6 +55,13 @@ fn rebuild_lit(env: &BDDEnv<usize>, x: &Sx) -> Result<B, String> {
             let id: usize = v[2].atom().ok_or("id")?.parse().map_err(|_| "id")?;
             Ok(env.mk_choice(t, id, f))
         }
+        // a node allocated directly through the public enum, not through mk_choice: not reduced, not in the table
+        Sx::L(v) if v.len() == 4 && v[0].atom() == Some("R") => {
+            let t = rebuild_lit(env, &v[1])?;
+            let f = rebuild_lit(env, &v[3])?;
+            let id: usize = v[2].atom().ok_or("id")?.parse().map_err(|_| "id")?;
+            Ok(Rc::new(BDD::Choice(t, id, f)))
+        }
         _ => Err(format!("lit {}", x.show())),
     }
 }
@@ -99,6 +106,7 @@ impl<'a> Interp<'a> {
                 let a = &v[1..];
                 let e1 = |i: usize| self.eval(&a[i], cur);
                 match (h, a.len()) {
+                    ("R", 3) => rebuild_lit(env, x),
                     ("N", 3) => {
                         if self.xenv {
                             rebuild_lit(&BDDEnv::new(), x)
@@ -607,6 +615,46 @@ pub fn part_unary(out: &mut Out, o: &Opts, which: &str) {
                 }
                 _ => {
                     g.case(Sx::op("clean", vec![a.clone()]));
+                }
+            }
+        }
+    }
+    // diagrams that did not come out of mk_choice (the enum is public): ordered, but with redundant tests and "dead" nodes whose
+    // branches are both unsatisfiable; model, infer and retain are stated for every diagram
+    if which == "model" || which == "retain" {
+        let leaf = |b: bool| Sx::a(if b { "T" } else { "F" });
+        let node = |t: Sx, v: usize, f: Sx| Sx::l(vec![Sx::a("R"), t, Sx::n(v), f]);
+        let mut subs: Vec<Sx> = vec![leaf(false), leaf(true)];
+        for v in [1usize, 2] {
+            for t in [false, true] {
+                for f in [false, true] {
+                    subs.push(node(leaf(t), v, leaf(f)));
+                }
+            }
+        }
+        let mut raws: Vec<Sx> = vec![];
+        for t in &subs {
+            for f in &subs {
+                raws.push(node(t.clone(), 0, f.clone()));
+            }
+        }
+        let dead = node(leaf(false), 2, leaf(false));
+        let full = node(leaf(true), 2, leaf(true));
+        for inner in [dead, full] {
+            raws.push(node(node(inner.clone(), 1, leaf(false)), 0, leaf(true)));
+            raws.push(node(node(inner.clone(), 1, node(leaf(true), 3, leaf(false))), 0, node(leaf(true), 2, leaf(false))));
+            raws.push(node(leaf(false), 0, node(leaf(true), 1, inner.clone())));
+        }
+        for a in raws {
+            if which == "model" {
+                g.case(Sx::op("model", vec![a.clone()]));
+                for v in 0..3usize {
+                    g.case(Sx::op("infer", vec![a.clone(), Sx::n(v)]));
+                }
+                g.case(Sx::op("model", vec![Sx::op("and", vec![Sx::op("var", vec![Sx::n(0)]), a.clone()])]));
+            } else {
+                for f in ["t", "f", "a"] {
+                    g.case(Sx::op("retain", vec![Sx::a(f), a.clone()]));
                 }
             }
         }
